@@ -284,4 +284,10 @@ def run(ctx: Ctx):
         st = Stream(ctx, "diagram rules naming a component that the architecture does not have, next to violated generated rules")
         c07.absent_component_stream(ctx, st, ctx.size(1500, 20000))
         st.finish()
+    if not ctx.violations:
+        from ..rules_common import reuse_stream
+
+        st = Stream(ctx, "rule objects applied before (also to an architecture that has all the modules) vs fresh rule objects: the same lookup / no-match error")
+        reuse_stream(ctx, st, ctx.size(1000, 15000))
+        st.finish()
     return RULE
